@@ -4,7 +4,7 @@
    the effect of prune_repository on an abstract repository; the decision tables are regenerated
    from prune.rs into Extracted.v on every run.  Blob identity is the key the planner uses (b_key, regenerated from the source). *)
 From Verif.Base Require Import Tactics.
-From Verif.C02 Require Import ModelBase Extracted Model Spec Proofs Proofs2 Proofs3 Proofs4 Proofs5 Proofs6 Proofs7.
+From Verif.C02 Require Import ModelBase Extracted Model Spec Proofs Proofs2 Proofs3 Proofs4 Proofs5 Proofs6 Proofs7 Proofs8.
 Local Open Scope N_scope.
 
 (* Decision table of decide_packs as found in the source: a pack accounted >= 1 used blob is kept,
@@ -73,6 +73,28 @@ Theorem marked_needed_recovered : forall dec packer nid o fs used existing pl p 
                  /\ p_id e = pp_id p /\ p_blobs e = pp_blobs p /\ p_time e = Some (o_now o).
 Proof. exact marked_needed_recovered_lemma. Qed.
 Print Assumptions marked_needed_recovered.
+
+(* Two-phase delete, across runs.  A non-instant run lists every pack it decides to mark (MarkDelete, or
+   Repack after copying the used blobs) in `packs_to_delete` with the time of THIS run, and a pack it
+   leaves marked (KeepMarked) stays in `packs_to_delete` with its OLD mark time.  With
+   only_unused_removed (a later run removes a pack only when the mark time it reads satisfies
+   mark_time + keep_delete <= now) a marked pack stays available for at least keep_delete after the
+   run that marked it, and marked_needed_recovered brings it back when it is needed again. *)
+Theorem fresh_marks_carry_run_time : forall dec packer nid o fs used existing pl p,
+  plan_with dec o fs used existing = inr pl -> o_instant o = false ->
+  In p (pl_packs pl) -> pp_todo p = MarkDelete \/ pp_todo p = Repack ->
+  exists f e, In f (out_index (execute packer nid o fs pl)) /\ In e (f_del f)
+              /\ p_id e = pp_id p /\ p_blobs e = pp_blobs p /\ p_time e = Some (o_now o).
+Proof. exact fresh_marks_timed_lemma. Qed.
+Print Assumptions fresh_marks_carry_run_time.
+
+Theorem kept_marks_keep_their_time : forall dec packer nid o fs used existing pl p t,
+  plan_with dec o fs used existing = inr pl -> o_instant o = false ->
+  In p (pl_packs pl) -> pp_todo p = KeepMarked -> pp_time p = Some t ->
+  exists f e, In f (out_index (execute packer nid o fs pl)) /\ In e (f_del f)
+              /\ p_id e = pp_id p /\ p_blobs e = pp_blobs p /\ p_time e = Some t.
+Proof. exact kept_marks_keep_time_lemma. Qed.
+Print Assumptions kept_marks_keep_their_time.
 
 (* decide_repack (max_repack, max_unused, no_resize, ordering, resize packs) only ever answers Keep or
    Repack for a candidate, and applying ANY answer list touches only candidates (Keep / Repack, or
